@@ -857,16 +857,18 @@ def run_case(case, keep_world=False):
             if script.get("pre_get_data") and not case.get("faults"):
                 # documented scenario-script usage: query entity data with World.get_data() before the run
                 want = {}
+                # (measurements only: an event output has no value before the first step)
+                omit = {s_["sid"] for s_ in scn["sims"] if any(s_.get("beh", {}).get("omit_po", []))}
                 for c in scn.get("conns", []):
-                    if c["sa"] in ("po", "eo"):
+                    if c["sa"] == "po" and c["src"] not in omit:
                         want.setdefault(ents[c["src"]][c["se"]], set()).add(c["sa"])
-                for attr_ in sorted({a for v in want.values() for a in v}):
-                    es = [e for e, v in want.items() if attr_ in v]
+                if want:
                     ctl.trace.append(("pre_get_data", snapshot(
-                        {e.full_id: v for e, v in world.get_data(es, attr_).items()})))
+                        {e.full_id: v for e, v in world.get_data(list(want), "po").items()})))
         except Exception as e:  # noqa
             res.outcome = "build_error"
             res.exc_type = type(e).__name__
+            res.exc_mro = [k.__name__ for k in type(e).__mro__]
             res.exc_msg = str(e)
             return res
 
